@@ -527,6 +527,94 @@ class Robust:
         else:
             bad("index of a masked store is not ~M / M", x, R)
         return (tgt, g, app)
+    # -- the restart of the hyper-parameters (noise coordinate), extracted IN ADDITION to the pinned texts
+    def qx(self, n, env):
+        """arithmetic over the scalars of env (list of (ast.dump of the node, constructor)), + and *, numeric literals"""
+        d = ast.dump(n)
+        for k, tag in env:
+            if d == k:
+                return tag
+        if isinstance(n, ast.Constant) and type(n.value) in (int, float):
+            from fractions import Fraction
+            fr = Fraction(repr(n.value))
+            return f"(QConst ({fr.numerator} # {fr.denominator}))"
+        if isinstance(n, ast.BinOp) and isinstance(n.op, (ast.Add, ast.Mult)):
+            return f"({'QAdd' if isinstance(n.op, ast.Add) else 'QMul'} {self.qx(n.left, env)} {self.qx(n.right, env)})"
+        bad("arithmetic of the restart outside the grammar (+, *, literals over new_hyp / old / noise_nudge / nudge[0] / bound)", n, "restart")
+
+    def restart(self, stmts, H):
+        R = "restart"
+        L = lambda src: ast.dump(ast.parse(src, mode="eval").body)
+        found = {}
+
+        def put(key, i, val):
+            if key in found:
+                bad(f"the restart has two statements of kind {key}", stmts[i], R)
+            found[key] = (i, val)
+        nn_names = [k for k, (v, _) in self.consts.items() if v == 0 and k != getattr(self, "ntry_name", None)]
+        for i, s in enumerate(stmts):
+            # T1 old start point
+            if isinstance(s, ast.Assign) and len(s.targets) == 1 and is_name(s.targets[0]) and isinstance(s.value, ast.IfExp):
+                hg = self.params[4]
+                if ast.dump(s.value) != L(f"{hg}.copy() if len({hg}) == 1 else {hg}[-1].copy()"):
+                    bad("the old start point is not `hyp_gp.copy() if len(hyp_gp) == 1 else hyp_gp[-1].copy()`", s, R)
+                put("old", i, s.targets[0].id)
+            # T2 sampler
+            elif isinstance(s, ast.If) and isinstance(s.test, ast.Subscript) and self.param_ix(s.test.value) == 7 \
+                    and isinstance(s.test.slice, ast.Constant) and isinstance(s.test.slice.value, str):
+                last = s.body[-1] if s.body else None
+                ok = (isinstance(last, ast.Assign) and len(last.targets) == 1 and is_name(last.targets[0], H) and isinstance(last.value, ast.Call)
+                      and is_name(last.value.func, "_get_samples_from_slice_sampler_")
+                      and len(s.orelse) == 1 and isinstance(s.orelse[0], ast.Assign) and len(s.orelse[0].targets) == 1
+                      and is_name(s.orelse[0].targets[0], H)
+                      and ast.dump(s.orelse[0].value) == L(f"_get_random_samples_from_priors_({self.params[0]})"))
+                if not ok:
+                    bad("the sampler choice is not `if options[key]: ... new = slice sampler else: new = prior sample`", s, R)
+                put("sampler", i, s.test.slice.value)
+            # T3 averaging
+            elif isinstance(s, ast.If) and ast.dump(s.test) == L(f"{H} is not None"):
+                ok = (len(s.body) == 1 and len(s.orelse) == 1 and all(isinstance(x, ast.Assign) and len(x.targets) == 1 and is_name(x.targets[0], H)
+                                                                        for x in (s.body[0], s.orelse[0])))
+                if not ok:
+                    bad("the averaging is not `if new is not None: new = E1 else: new = E2`", s, R)
+                put("avg", i, (s.body[0].value, s.orelse[0].value))
+            # T4 nudge option
+            elif isinstance(s, ast.Assign) and len(s.targets) == 1 and is_name(s.targets[0]) and ast.dump(s.value) == L(f"{self.params[7]}['noise_nudge']"):
+                put("nudge", i, s.targets[0].id)
+            # T6 accumulation
+            elif isinstance(s, ast.Assign) and len(s.targets) == 1 and is_name(s.targets[0]) and s.targets[0].id in nn_names:
+                put("nn", i, (s.targets[0].id, s.value))
+            # T9 lower bound
+            elif isinstance(s, ast.Assign) and len(s.targets) == 1 and is_name(s.targets[0]) and isinstance(s.value, ast.Tuple) and len(s.value.elts) == 2:
+                nb = s.targets[0].id
+                if ast.dump(s.value.elts[1]) != L(f"{nb}[1]"):
+                    bad("the upper noise bound is not kept", s, R)
+                put("lb", i, (nb, s.value.elts[0]))
+            # T13 start value of the noise
+            elif isinstance(s, ast.Assign) and len(s.targets) == 1 and isinstance(s.targets[0], ast.Subscript) \
+                    and ast.dump(s.targets[0]).replace("Store()", "Load()") == L(f"{H}[0]['noise_log_scale']"):
+                put("noise", i, s.value)
+        for k in ("old", "sampler", "avg", "nudge", "nn", "lb", "noise"):
+            if k not in found:
+                bad(f"the restart has no statement of kind {k}", self.fn, R)
+        order = [found[k][0] for k in ("old", "sampler", "avg", "nudge", "nn", "lb", "noise")]
+        if order != sorted(order):
+            bad("the statements of the restart are not in the order old / sampler / averaging / nudge / accumulation / bound / start value", self.fn, R)
+        OLD, NU = found["old"][1], found["nudge"][1]
+        NN, nn_e = found["nn"][1]
+        NB, lb_e = found["lb"][1]
+        # the names may not be rebound in between (single binding each, except new_hyp and noise_nudge)
+        for nm in (OLD, NU, NB):
+            n_st = sum(1 for x in ast.walk(self.fn) if is_name(x, nm) and isinstance(x.ctx, ast.Store))
+            if nm == NU and n_st > 3 or nm == NB and n_st != 2 or nm == OLD and n_st != 1:
+                bad(f"{nm} is bound more often than the restart expects", self.fn, R)
+        e1, e2 = found["avg"][1]
+        env_avg = [(L(H), "QNew"), (L(OLD), "QOld")]
+        return dict(key=found["sampler"][1], avg_some=self.qx(e1, env_avg), avg_none=self.qx(e2, env_avg),
+                    nn=self.qx(nn_e, [(L(NN), "QNn"), (L(f"{NU}[0]"), "QNudge0")]),
+                    lb=self.qx(lb_e, [(L(f"{NB}[0]"), "QLb"), (L(NN), "QNn")]),
+                    noise=self.qx(found["noise"][1], [(L(f"{H}[0]['noise_log_scale']"), "QNew"), (L(NN), "QNn")]))
+
     # -- epilogue
     def scond(self, t):
         if isinstance(t, ast.Call) and len(t.args) == 1 and not t.keywords and (is_np(t.func, "any") or is_np(t.func, "all")):
@@ -664,6 +752,7 @@ class Robust:
             if isinstance(s, (ast.Try, ast.For, ast.While, ast.Return, ast.Raise, ast.Break, ast.Continue)):
                 bad("control statement in the handler outside the whitelist", s, "handler")
             hs.append(f"HPin {cstr(self.canon.text(s))}")
+        restart = self.restart(list(h.body), hyp_name)
         # ---- epilogue
         chain = None
         epi_pins = []
@@ -729,7 +818,7 @@ class Robust:
         return dict(
             n_try=n_try, flag_init=flag_init, prologue=[self.canon.text(s) for s in pins],
             recv=self.canon.text(fs.value.func), args=args, kw=kws, binds_res="res" in ret and True,
-            breaks=breaks, caught=caught, handler=hs, success=chain[1], success_else=chain[2], epilogue=epi_pins, ret=ret)
+            breaks=breaks, caught=caught, handler=hs, restart=restart, success=chain[1], success_else=chain[2], epilogue=epi_pins, ret=ret)
 
 def coq_robust(t):
     z = lambda c: f"({c})" if c < 0 else str(c)
@@ -952,12 +1041,15 @@ def load():
     ini = translate_init(find_function(tree, "init_and_train_gp"))
     return dict(robust=rob, init=ini)
 
+def coq_restart(r):
+    return f"mkRestart {cstr(r['key'])} {r['avg_some']} {r['avg_none']} {r['nn']} {r['lb']} {r['noise']}"
 def defs(t):
-    return {"src_robust": ("robust_src", coq_robust(t["robust"])), "src_init": ("init_src", coq_init(t["init"]))}
+    return {"src_robust": ("robust_src", coq_robust(t["robust"])), "src_restart": ("restart_src", coq_restart(t["robust"]["restart"])),
+            "src_init": ("init_src", coq_init(t["init"]))}
 
 def render(t):
     out = ["(* GENERATED by translate/fitretry.py from " + REL + " - do not edit; regenerated on every ./check C16 *)",
-           "From Coq Require Import ZArith List String Bool.",
+           "From Coq Require Import ZArith QArith List String Bool.",
            "From PV Require Import Model.FitRetry Model.FitRetrySrc.",
            "Import ListNotations.", "Open Scope string_scope.", "Open Scope Z_scope.", ""]
     for name, (ty, text) in defs(t).items():
@@ -1009,7 +1101,7 @@ def diff(t, ref=None):
 REGION_OF_FIELD = {
     "robust.n_try": "bound", "robust.flag_init": "success", "robust.success": "success", "robust.success_else": "success", "robust.ret": "success",
     "robust.binds_res": "success", "robust.breaks": "bound", "robust.caught": "caught", "robust.handler": "handler", "robust.args": "drop",
-    "robust.kw": "start", "robust.recv": "start", "robust.prologue": "start", "robust.epilogue": "start",
+    "robust.kw": "start", "robust.recv": "start", "robust.restart": "start", "robust.prologue": "start", "robust.epilogue": "start",
     "init.arms": "init", "init.caught": "init", "init.inc": "init", "init.tf0": "init", "init.fitted0": "init", "init.cond": "init",
 }
 
